@@ -1,3 +1,237 @@
 package main
 
-func registerIOModels() {}
+// Assumed contracts: io.Reader / io.Writer / io.ReadFull, protowire varints,
+// strings.Builder, strconv, fmt.Sprintf("%%%02x").
+
+import (
+	"fmt"
+	"go/types"
+
+	"golang.org/x/tools/go/ssa"
+)
+
+func (c *FnCtx) ioEOF() VIface {
+	v, ok := c.eng.namedConst(c, "io.EOF")
+	if !ok {
+		panic(unsupported("io.EOF not found"))
+	}
+	return v.(VIface)
+}
+
+func ifaceEq(a, b VIface) string { return and(eq(a.Typ, b.Typ), eq(a.Pay, b.Pay)) }
+
+// readInto models delivering n stream bytes of reader id into p[0:n].
+func (c *FnCtx) readInto(st *State, id string, p VSlice, n string) {
+	posMap := c.heapGet(st, "G$rd.pos", arrSort(sInt))
+	pos := c.define("rd.pos", sInt, sel(posMap, id))
+	c.assert(le("0", pos))
+	ms := mapSort(2, sInt)
+	E := c.heapGet(st, "E$uint8", ms)
+	k := c.fresh("k")
+	arr := c.lambda("rd", sInt, k, ite(and(le(p.Off, k), lt(k, plus(p.Off, n))),
+		sel(app("rdS", id), plus(pos, minus(k, p.Off))), sel(sel(E, p.Base), k)))
+	c.heapSet(st, "E$uint8", ms, sto(E, p.Base, arr))
+	c.heapSet(st, "G$rd.pos", arrSort(sInt), sto(posMap, id, plus(pos, n)))
+}
+
+func registerIOModels() {
+	libModels["(io.Reader).Read"] = &libModel{
+		desc:   "Read(p) returns any 0 <= n <= len(p), possibly together with any error; p[0:n] receives the next n bytes of the reader's abstract stream rdS(r) at rdpos(r), which advances by n; nothing else changes. Termination obligations additionally assume ReaderProgress: len(p) > 0 && err == nil ==> n > 0",
+		writes: []string{"E$uint8", "G$rd.pos"},
+		apply: func(c *FnCtx, st *State, in ssa.Instruction, cc *ssa.CallCommon, args []Val) Val {
+			r := args[0].(VIface)
+			p := args[1].(VSlice)
+			id := c.define("rid", sInt, readerID(r))
+			n := c.declare("rd.n", sInt)
+			c.assert(and(le("0", n), le(n, p.Len)))
+			err := c.freshVal(st, types.Universe.Lookup("error").Type(), "rd.err").(VIface)
+			c.readInto(st, id, p, n)
+			c.assertOnly("ReaderProgress", implies(and(lt("0", p.Len), eq(err.Typ, "0")), lt("0", n)))
+			return VTuple{E: []Val{VInt{n}, err}}
+		},
+	}
+	libModels["io.ReadFull"] = &libModel{
+		desc:   "ReadFull(r, buf) returns 0 <= n <= len(buf); err == nil <=> n == len(buf); err == io.EOF ==> n == 0; n > 0 && err != nil ==> err != io.EOF; buf[0:n] receives the next n stream bytes and rdpos(r) advances by n",
+		writes: []string{"E$uint8", "G$rd.pos"},
+		apply: func(c *FnCtx, st *State, in ssa.Instruction, cc *ssa.CallCommon, args []Val) Val {
+			r := args[0].(VIface)
+			p := args[1].(VSlice)
+			c.oblige(st, "nil", c.anchor(in), in.Pos(), not(eq(r.Typ, "0")), "reader passed to io.ReadFull is not nil", nil)
+			id := c.define("rid", sInt, readerID(r))
+			n := c.declare("rf.n", sInt)
+			c.assert(and(le("0", n), le(n, p.Len)))
+			err := c.freshVal(st, types.Universe.Lookup("error").Type(), "rf.err").(VIface)
+			eof := c.ioEOF()
+			c.assert(eq(eq(err.Typ, "0"), eq(n, p.Len)))
+			c.assert(implies(ifaceEq(err, eof), eq(n, "0")))
+			c.readInto(st, id, p, n)
+			return VTuple{E: []Val{VInt{n}, err}}
+		},
+	}
+	libModels["(io.Writer).Write"] = &libModel{
+		desc:   "Write(p) returns 0 <= n <= len(p) and n < len(p) ==> err != nil; the writer's ghost output wrout(w) is extended by p[0:n] (wrlen(w) advances by n); p is not modified",
+		writes: []string{"G$wr.out", "G$wr.len"},
+		apply: func(c *FnCtx, st *State, in ssa.Instruction, cc *ssa.CallCommon, args []Val) Val {
+			w := args[0].(VIface)
+			p := args[1].(VSlice)
+			id := c.define("wid", sInt, readerID(w))
+			n := c.declare("wr.n", sInt)
+			c.assert(and(le("0", n), le(n, p.Len)))
+			err := c.freshVal(st, types.Universe.Lookup("error").Type(), "wr.err").(VIface)
+			c.assert(implies(lt(n, p.Len), not(eq(err.Typ, "0"))))
+			lenMap := c.heapGet(st, "G$wr.len", arrSort(sInt))
+			outMap := c.heapGet(st, "G$wr.out", arrSort(sAI))
+			l := c.define("wr.len", sInt, sel(lenMap, id))
+			c.assert(le("0", l))
+			E := c.heapGet(st, "E$uint8", mapSort(2, sInt))
+			k := c.fresh("k")
+			arr := c.lambda("wr", sInt, k, ite(and(le(l, k), lt(k, plus(l, n))),
+				sel(sel(E, p.Base), plus(p.Off, minus(k, l))), sel(sel(outMap, id), k)))
+			c.heapSet(st, "G$wr.out", arrSort(sAI), sto(outMap, id, arr))
+			c.heapSet(st, "G$wr.len", arrSort(sInt), sto(lenMap, id, plus(l, n)))
+			return VTuple{E: []Val{VInt{n}, err}}
+		},
+	}
+	libModels["protowire.ConsumeVarint"] = &libModel{
+		desc: "ConsumeVarint(b): with j the first index < min(len(b),10) whose byte is < 0x80: returns (varintval(b, j+1), j+1), except j == 9 with b[9] > 1 which returns (0, -3); if there is no such index returns (0, -1) when len(b) < 10 and (0, -3) otherwise. varintval is the little-endian base-128 value",
+		apply: func(c *FnCtx, st *State, in ssa.Instruction, cc *ssa.CallCommon, args []Val) Val {
+			b := args[0].(VSlice)
+			E := c.heapGet(st, "E$uint8", mapSort(2, sInt))
+			arr := c.define("cv.arr", sAI, sel(E, b.Base))
+			at := func(j int) string { return sel(arr, plus(b.Off, fmt.Sprint(j))) }
+			c.eng.needVarint = true
+			v := c.declare("cv.v", sInt)
+			n := c.declare("cv.n", sInt)
+			// cases
+			allCont := "true" // all bytes before j are continuation bytes and exist
+			var cases []string
+			for j := 0; j < 10; j++ {
+				here := and(allCont, lt(fmt.Sprint(j), b.Len), lt(at(j), "128"))
+				val := app("varintval", arr, b.Off, fmt.Sprint(j+1))
+				if j < 9 {
+					cases = append(cases, implies(here, and(eq(n, fmt.Sprint(j+1)), eq(v, val))))
+				} else {
+					cases = append(cases, implies(and(allCont, lt("9", b.Len), lt(at(9), "2")), and(eq(n, "10"), eq(v, val))))
+					cases = append(cases, implies(and(allCont, lt("9", b.Len), le("2", at(9))), and(eq(n, num(-3)), eq(v, "0"))))
+				}
+				// ran out of bytes at j
+				cases = append(cases, implies(and(allCont, le(b.Len, fmt.Sprint(j))), and(eq(n, num(-1)), eq(v, "0"))))
+				allCont = and(allCont, lt(fmt.Sprint(j), b.Len), le("128", at(j)))
+			}
+			c.assert(and(cases...))
+			c.assert(and(le("0", v), lt(v, pow2[64])))
+			c.assert(or(eq(n, num(-1)), eq(n, num(-3)), and(le("1", n), le(n, "10"))))
+			return VTuple{E: []Val{VInt{v}, VInt{n}}}
+		},
+	}
+	libModels["protowire.AppendVarint"] = &libModel{
+		desc:   "AppendVarint(b, v) appends h bytes (1 <= h <= 10) forming a well-formed varint (first h-1 bytes >= 0x80, last < 0x80, tenth byte <= 1) with varintval == v (the ConsumeVarint/AppendVarint round trip)",
+		writes: []string{"E$uint8"},
+		apply: func(c *FnCtx, st *State, in ssa.Instruction, cc *ssa.CallCommon, args []Val) Val {
+			b := args[0].(VSlice)
+			v := args[1].(VInt).T
+			c.eng.needVarint = true
+			h := c.declare("av.h", sInt)
+			c.assert(and(le("1", h), le(h, "10")))
+			enc := c.declare("av.bytes", sAI)
+			var facts []string
+			for j := 0; j < 10; j++ {
+				bj := sel(enc, fmt.Sprint(j))
+				facts = append(facts, implies(lt(fmt.Sprint(j), h), and(le("0", bj), le(bj, "255"))))
+				facts = append(facts, implies(lt(fmt.Sprint(j), minus(h, "1")), le("128", bj)))
+				facts = append(facts, implies(eq(fmt.Sprint(j), minus(h, "1")), lt(bj, "128")))
+			}
+			facts = append(facts, implies(eq(h, "10"), le(sel(enc, "9"), "1")))
+			facts = append(facts, eq(app("varintval", enc, "0", h), v))
+			// a single byte encodes exactly the values below 128
+			facts = append(facts, eq(eq(h, "1"), lt(v, "128")))
+			c.assert(and(facts...))
+			return c.execAppend(st, in, b, VStr{enc, "0", h})
+		},
+	}
+	libModels["(*strings.Builder).WriteString"] = &libModel{
+		desc:   "WriteString(s) appends s to the builder's ghost content sbstr(b); returns (len(s), nil)",
+		writes: []string{"G$sb."},
+		apply: func(c *FnCtx, st *State, in ssa.Instruction, cc *ssa.CallCommon, args []Val) Val {
+			id := c.ptrOf(args[0]).Ref
+			s := args[1].(VStr)
+			lenMap := c.heapGet(st, "G$sb.len", arrSort(sInt))
+			arrMap := c.heapGet(st, "G$sb.arr", arrSort(sAI))
+			l := c.define("sb.len", sInt, sel(lenMap, id))
+			k := c.fresh("k")
+			arr := c.lambda("sb", sInt, k, ite(and(le(l, k), lt(k, plus(l, s.Len))), strAt(s, minus(k, l)), sel(sel(arrMap, id), k)))
+			c.heapSet(st, "G$sb.arr", arrSort(sAI), sto(arrMap, id, arr))
+			c.heapSet(st, "G$sb.len", arrSort(sInt), sto(lenMap, id, plus(l, s.Len)))
+			return VTuple{E: []Val{VInt{s.Len}, VIface{"0", "0"}}}
+		},
+	}
+	libModels["(*strings.Builder).String"] = &libModel{
+		desc: "String() returns the builder's ghost content",
+		apply: func(c *FnCtx, st *State, in ssa.Instruction, cc *ssa.CallCommon, args []Val) Val {
+			id := c.ptrOf(args[0]).Ref
+			lenMap := c.heapGet(st, "G$sb.len", arrSort(sInt))
+			arrMap := c.heapGet(st, "G$sb.arr", arrSort(sAI))
+			return VStr{c.define("sb.str", sAI, sel(arrMap, id)), "0", c.define("sb.n", sInt, sel(lenMap, id))}
+		},
+	}
+	parse := func(signed bool) func(c *FnCtx, st *State, in ssa.Instruction, cc *ssa.CallCommon, args []Val) Val {
+		return func(c *FnCtx, st *State, in ssa.Instruction, cc *ssa.CallCommon, args []Val) Val {
+			s := args[0].(VStr)
+			base, bits := args[1].(VInt).T, args[2].(VInt).T
+			resT := cc.Signature().Results().At(0).Type()
+			v := c.freshVal(st, resT, "parse.v").(VInt)
+			err := c.freshVal(st, types.Universe.Lookup("error").Type(), "parse.err").(VIface)
+			if base != "10" || bits != "64" {
+				c.note("strconv.Parse* with base %s / bitSize %s is abstracted", base, bits)
+				return VTuple{E: []Val{v, err}}
+			}
+			c.eng.needDecval = true
+			hasSign := "false"
+			neg := "false"
+			if signed {
+				hasSign = c.define("parse.sign", sBool, and(lt("0", s.Len), or(eq(strAt(s, "0"), "43"), eq(strAt(s, "0"), "45"))))
+				neg = and(hasSign, eq(strAt(s, "0"), "45"))
+			}
+			doff := c.define("parse.doff", sInt, plus(s.Off, ite(hasSign, "1", "0")))
+			nd := c.define("parse.nd", sInt, minus(s.Len, ite(hasSign, "1", "0")))
+			k := c.fresh("k")
+			allDigits := fmt.Sprintf("(forall ((%s Int)) (=> (and (<= 0 %s) (< %s %s)) (and (<= 48 (select %s (+ %s %s))) (<= (select %s (+ %s %s)) 57))))",
+				k, k, k, nd, s.Arr, doff, k, s.Arr, doff, k)
+			syntaxOK := c.define("parse.ok", sBool, and(le("1", nd), allDigits))
+			c.assert(implies(eq(err.Typ, "0"), syntaxOK))
+			mag := app("decval", s.Arr, doff, nd)
+			c.assert(implies(and(syntaxOK, le(nd, "18")), and(eq(err.Typ, "0"), eq(v.T, ite(neg, app("-", mag), mag)))))
+			return VTuple{E: []Val{v, err}}
+		}
+	}
+	libModels["strconv.ParseInt"] = &libModel{
+		desc:  "ParseInt(s, 10, 64): err == nil ==> s is [+-]?[0-9]+; if s has that shape with at most 18 digits then err == nil and the value is the signed decimal value (decval)",
+		apply: parse(true),
+	}
+	libModels["strconv.ParseUint"] = &libModel{
+		desc:  "ParseUint(s, 10, 64): err == nil ==> s is [0-9]+; if s has that shape with at most 18 digits then err == nil and the value is its decimal value (decval)",
+		apply: parse(false),
+	}
+	libModels["fmt.Sprintf"] = &libModel{
+		desc: "Sprintf(\"%%%02x\", byte) returns the 3 bytes '%', hi, lo with hi/lo the lower-case hex digits of the byte; every other format is abstracted (pure, result unconstrained)",
+		apply: func(c *FnCtx, st *State, in ssa.Instruction, cc *ssa.CallCommon, args []Val) Val {
+			f := args[0].(VStr)
+			res := c.freshVal(st, types.Typ[types.String], "sprintf").(VStr)
+			if lit, ok := c.eng.litOf[f.Arr]; ok && lit == "%%%02x" {
+				va := args[1].(VSlice)
+				typM := c.heapGet(st, "E$"+typeName(va.Elem)+".typ", mapSort(2, sInt))
+				payM := c.heapGet(st, "E$"+typeName(va.Elem)+".pay", mapSort(2, sInt))
+				typ := sel(sel(typM, va.Base), va.Off)
+				pay := c.define("spf.byte", sInt, sel(sel(payM, va.Base), va.Off))
+				isByte := and(eq(va.Len, "1"), eq(typ, fmt.Sprint(c.eng.typeID(types.Typ[types.Uint8]))))
+				hex := func(d string) string { return ite(lt(d, "10"), plus("48", d), plus("87", d)) }
+				c.assert(implies(isByte, and(eq(res.Len, "3"), eq(strAt(res, "0"), "37"),
+					eq(strAt(res, "1"), hex(app("div", pay, "16"))), eq(strAt(res, "2"), hex(app("mod", pay, "16"))))))
+			} else {
+				c.abstracted["fmt.Sprintf (pure: result unconstrained)"]++
+			}
+			return res
+		},
+	}
+}
+
